@@ -1387,6 +1387,13 @@ func (fc *FnCtx) applyContractSig(st *State, call *ast.CallExpr, fname string, s
 			fc.warn("contract %s has no assigns clause: heap havocked at call sites", ct.Key)
 		}
 		fc.havocAll(st)
+		// without a frame the callee may also have changed ghost state: forget every ghost component (otherwise an
+		// ensures clause about a ghost would contradict the unchanged value and make the rest of the path vacuous)
+		for k, srt := range fc.smt.heapSort {
+			if strings.Contains(k, ".ghost_") {
+				st.heap[k] = fc.smt.fresh("Hg_"+k, srt)
+			}
+		}
 	} else {
 		fc.havocAssigns(st, pre, ct, env)
 	}
